@@ -611,7 +611,35 @@ def r8(db, rep):
             rep.ok("R8-ds-address-table", key, facts.loc(f, top), "%s selected per 802.11 for (0,0), (0,1), (1,0)" % "/".join(roles))
 
 
+def r12_aad(db, rep):
+    """CCMP additional authenticated data (802.11-2012 11.4.3.3.3): octets 22..23 are the Sequence Control field with the
+    sequence number masked to 0 and the FRAGMENT NUMBER kept - the frame's fragment number must flow into AAD[22]"""
+    fs = [f for fid, f in db.functions.items() if "ccmp_decrypt_unicast(" in fid and f.get("body")]
+    if not fs:
+        rep.analysis_broken("ccmp_decrypt_unicast vanished")
+        return
+    f = fs[0]
+    stores = []
+    for x in facts.fn_nodes(f):
+        if x["k"] == "BinaryOperator" and x.get("op") == "=":
+            l = facts.strip_all(x["c"][0])
+            if l["k"] == "ArraySubscriptExpr" and facts.cval(l["c"][1]) == 22 and "AAD" in facts.expr_str(l["c"][0]).upper():
+                stores.append(x)
+    key = "ccmp_decrypt_unicast:aad-sequence-control"
+    if not stores:
+        rep.undecided("R10-tkip-words", key, facts.loc(f), "the AAD is not filled octet by octet any more: the sequence-control octets were not found")
+        return
+    v = facts.inline_locals(f, stores[-1]["c"][1])
+    if any(y["k"] == "CXXMemberCallExpr" and y.get("cname") == "frag_num" for y in facts.walk(v)):
+        rep.ok("R10-tkip-words", key, facts.loc(f, stores[-1]), "AAD[22] carries the fragment number (sequence number masked)")
+    else:
+        rep.violation("R10-tkip-words", key, facts.loc(f, stores[-1]),
+                      "AAD[22] is `%s`, not the frame's fragment number: only the sequence number is masked in the CCMP AAD, so the MIC of "
+                      "every fragment but the first fails and valid fragmented frames are reported as not decrypted" % facts.expr_str(stores[-1]["c"][1])[:40])
+
+
 def r11(db, rep):
+    r12_aad(db, rep)
     REC = "Tins::Crypto::WPA2Decrypter"
     # normalisers: make_addr_pair, and functions that return nothing but the result of a normaliser
     norm = set(h["id"] for h in db.functions.values() if h.get("name", "").split("::")[-1] == "make_addr_pair")
